@@ -58,6 +58,15 @@ def gen_behaviour(rng, types, compliant_outputs=False, monotone=False):
             b['outputs'] = outs
         beh.append(b)
     init = [[i, rng.randint(0, 2)] for i in range(n) if types[i] == 'event-based' and rng.random() < 0.7]
+    # a delayed start: set_initial_event on a time-based or hybrid simulator replaces its automatic step at 0
+    init += [[i, rng.randint(0, 3)] for i in range(n) if types[i] != 'event-based' and rng.random() < 0.15]
+    if monotone and rng.random() < 0.3:
+        # forecasting producers: every output of a simulator is stamped a constant k steps into the future (still monotone)
+        for b in beh:
+            if b['type'] == 'time-based' or rng.random() < 0.5: continue
+            kf = rng.choice([1, 2, 3])
+            for key, spec in b['outputs'].items():
+                spec[0] = int(key.split(',')[0]) + kf
     return until, beh, init
 
 
@@ -204,6 +213,12 @@ def gen_loop_case(rng: random.Random):
     for k in range(n - 1):
         edges.append(dict(a=k, b=k + 1, sa='eo', da='ti', kind='p', shift=0, init=False))
     edges.append(dict(a=n - 1, b=0, sa='eo', da='ti', kind='w', shift=0, init=False))
+    if rng.random() < 0.3:
+        # the port that closes the loop also kicks off the next time step (a second, time-shifted connection of the same
+        # port to the same simulator)
+        kick = dict(a=n - 1, b=0, sa='eo', da='t2', kind='ts', shift=1, init=False)
+        if rng.random() < 0.5: edges.append(kick)
+        else: edges.insert(len(edges) - 1, kick)
     if driver:
         edges.append(dict(a=n, b=0, sa='po', da='ti' if types[0] != 'time-based' else 'i', kind='p', shift=0, init=False))
     bound = rng.choice([1, 2, 3, 5])
